@@ -64,6 +64,10 @@ type FnCtx struct {
 	loopAny          bool
 	retVals          []retInfo // for inlining
 	inline           bool
+	loopHelpers      map[ssa.Instruction]int // root: call sites of contract-less helpers whose loops take the root contract's loop specs from this index on
+	loopSpecBase     int                     // inlined helper: index of its first loop among the root contract's loop specs (-1: none)
+	callSite         ssa.Instruction         // inlined helper: the call instruction in the parent
+	callBlock        *ssa.BasicBlock         // inlined helper: the parent's block of that call
 	frameParent      *FnCtx
 	iters            map[ssa.Value]*iterInfo
 	pureAssumed      map[string]bool
@@ -145,6 +149,93 @@ func (fc *FnCtx) findLoops() {
 		if fc.con != nil {
 			li.spec = fc.con.Loops[i]
 		}
+	}
+	if fc.con == nil && fc.frameParent != nil && fc.loopSpecBase >= 0 {
+		// an inlined helper that took over loops of the function under contract
+		if rc := fc.root().con; rc != nil {
+			for i, li := range hs {
+				li.index = fc.loopSpecBase + i
+				li.spec = rc.Loops[li.index]
+			}
+		}
+	}
+	if fc.con != nil && fc.frameParent == nil {
+		fc.planLoopHelpers(hs)
+	}
+}
+
+// countLoops: the number of natural-loop headers of f.
+func countLoops(f *ssa.Function) int {
+	seen := map[*ssa.BasicBlock]bool{}
+	for _, b := range f.Blocks {
+		for _, s := range b.Succs {
+			if s.Dominates(b) {
+				seen[s] = true
+			}
+		}
+	}
+	return len(seen)
+}
+
+// planLoopHelpers handles the refactoring "a loop that has an invariant was moved into a new
+// helper function": when the contract has more loop specs than the function has loops, and
+// the function calls contract-less helpers of this repository whose loops make up exactly the
+// difference, the helpers are inlined and their loops take the contract's loop specs in
+// source order (the call site standing where the loops used to be). Every obligation of the
+// moved loops is still generated and checked; a wrong match can only fail.
+func (fc *FnCtx) planLoopHelpers(hs []*loopInfo) {
+	nSpecs := 0
+	for i := range fc.con.Loops {
+		if i+1 > nSpecs {
+			nSpecs = i + 1
+		}
+	}
+	if nSpecs <= len(hs) {
+		return
+	}
+	type item struct {
+		pos  token.Pos
+		li   *loopInfo
+		call ssa.Instruction
+		k    int
+	}
+	var items []item
+	for _, li := range hs {
+		items = append(items, item{pos: fc.blockPos(li), li: li})
+	}
+	total := len(hs)
+	for _, b := range fc.fn.Blocks {
+		for _, in := range b.Instrs {
+			c, ok := in.(*ssa.Call)
+			if !ok {
+				continue
+			}
+			f := c.Call.StaticCallee()
+			if f == nil || !fc.eng.loopHelperCandidate(f) {
+				continue
+			}
+			k := countLoops(f)
+			items = append(items, item{pos: c.Pos(), call: in, k: k})
+			total += k
+		}
+	}
+	if total != nSpecs {
+		return
+	}
+	sort.SliceStable(items, func(i, j int) bool { return items[i].pos < items[j].pos })
+	next := 0
+	for _, it := range items {
+		if it.li != nil {
+			it.li.index = next
+			it.li.spec = fc.con.Loops[next]
+			next++
+			continue
+		}
+		if fc.loopHelpers == nil {
+			fc.loopHelpers = map[ssa.Instruction]int{}
+		}
+		fc.loopHelpers[it.call] = next
+		next += it.k
 	}
 }
 
